@@ -478,6 +478,161 @@ theorem adjust_intervals_empty_eq_model (ls : Option (List String)) (tmin tmax :
 
 end intervals
 
+/-! ### interpolate_intervals, intervals_to_samples -/
+
+/-- the rows the hand model works on: labels are `some _`, the fill value may be `None` -/
+def rowsO (xs : LI String) : LI (Option String) := xs.map fun x => (x.1, x.2.1, some x.2.2)
+
+theorem interpolate_loop_eq (tps : List Rat) (xs : LI String) (acc : List (Option String))
+    (hacc : acc.length = tps.length) :
+    Mir.Gen.util.interpolate_intervals_loop1
+        (List.zip (searchsortedLeft tps (col0 (ivals xs)))
+          (List.zip (searchsortedRight tps (col1 (ivals xs))) (labels xs))) acc
+      = .ok ((rowsO xs).foldl (interpolateStep tps) acc) := by
+  induction xs generalizing acc with
+  | nil => rfl
+  | cons x r ih =>
+    have h1 : (tps.countP fun t => decide (t < x.1)) ≤ acc.length := hacc ▸ List.countP_le_length
+    have h2 : (tps.countP fun t => decide (t ≤ x.2.1)) ≤ acc.length := hacc ▸ List.countP_le_length
+    simp only [searchsortedLeft, searchsortedRight, col0, col1, ivals, labels, List.map_cons, List.zip_cons_cons,
+      Mir.Gen.util.interpolate_intervals_loop1, rowsO, List.foldl_cons, interpolateStep, List.map_replicate,
+      sliceAssign_replicate _ _ _ _ h1 h2] at ih ⊢
+    exact ih _ (by rw [length_iv_sliceAssign]; exact hacc)
+
+/-- `util.interpolate_intervals` for ALL labelled interval lists, time grids (sorted or not) and fill values -/
+theorem interpolate_intervals_eq_model (xs : LI String) (tps : List Rat) (fill : Option String) :
+    Mir.Gen.util.interpolate_intervals (ivals xs) (labels xs) tps fill = interpolate (rowsO xs) tps fill := by
+  simp only [Mir.Gen.util.interpolate_intervals, interpolate, anyB_unsorted]
+  by_cases h : isNondecreasing tps = true
+  · have hl : (List.replicate (len tps) fill).length = tps.length := by simp [len]
+    simp [h, interpolate_loop_eq tps xs _ hl, len]
+  · simp [h]
+    rfl
+
+theorem entries_rowsO (xs : LI String) : entries (rowsO xs) = entries xs := by
+  induction xs with
+  | nil => rfl
+  | cons x r ih => simp [rowsO, entries] at ih ⊢; exact ih
+
+/-- `util.intervals_to_samples` for ALL labelled interval lists, offsets, sample sizes (zero and negative included) and
+    fill values; the float32 sample grid is read as the hand model reads it (`i * size + offset`, exactly) -/
+theorem intervals_to_samples_eq_model (xs : LI String) (offset size : Rat) (fill : Option String) :
+    Mir.Gen.util.intervals_to_samples (ivals xs) (labels xs) offset size fill
+      = intervalsToSamples (rowsO xs) offset size fill := by
+  simp only [Mir.Gen.util.intervals_to_samples, intervalsToSamples, entries_rowsO, maxOf]
+  rw [show ravel (ivals xs) = entries xs from by
+    induction xs with
+    | nil => rfl
+    | cons x r ih => simp [ravel, ivals, entriesP, entries] at ih ⊢; exact ih]
+  rcases hm : maxL (entries xs) with _ | m
+  · rfl
+  · by_cases hs : size = 0
+    · by_cases h0 : m = 0 <;> simp [hs, h0, intFloorDivNp]
+    · have ht : (List.map (fun v => v + offset) (List.map (fun i : Nat => (i : Rat) * size) (arangeInt (m / size).floor)))
+          = sampleTimes (m / size).floor.toNat size offset := by
+        simp [arangeInt, sampleTimes, List.map_map, Function.comp_def]
+      simp only [hs, intFloorDivNp, if_false, ok_bind, ht, interpolate_intervals_eq_model]
+      cases interpolate (rowsO xs) (sampleTimes (m / size).floor.toNat size offset) fill <;> rfl
+
+/-! ### merge_labeled_intervals -/
+
+/-- one output row of the hand model -/
+def mergeRow (x y : LI String) (pq : Rat × Rat) : Py (Rat × Rat × String × String) :=
+  match lastStarted x pq.1, lastStarted y pq.1 with
+  | some lx, some ly => .ok (pq.1, pq.2, lx, ly)
+  | _, _ => .error .indexError
+
+theorem mergeRows_eq (x y : LI String) (bs : List Rat) : mergeRows x y bs = (pairs bs).mapM (mergeRow x y) := by
+  unfold mergeRows
+  congr 1
+  funext pq
+  unfold mergeRow
+  rcases lastStarted x pq.1 with _ | lx <;> rcases lastStarted y pq.1 with _ | ly <;> rfl
+
+theorem mergeRow_mapM_fst (x y : LI String) (P : Ivals) {out : List (Rat × Rat × String × String)}
+    (h : P.mapM (mergeRow x y) = .ok out) : out.map (fun r => (r.1, r.2.1)) = P := by
+  refine mapM_ok_inv (mergeRow x y) (fun r => (r.1, r.2.1)) ?_ P h
+  intro p r hr
+  unfold mergeRow at hr
+  rcases hx : lastStarted x p.1 with _ | lx <;> rcases hy : lastStarted y p.1 with _ | ly <;>
+    simp only [hx, hy] at hr <;> cases hr
+  rfl
+
+theorem merge_loop_eq (x y : LI String) (P : Ivals) (ax ay : List String) :
+    Mir.Gen.util.merge_labeled_intervals_loop1 (arange (len (labels x))) (ivals x) (labels x)
+        (arange (len (labels y))) (ivals y) (labels y) P ax ay
+      = (P.mapM (mergeRow x y)).map fun out => (ax ++ out.map (·.2.2.1), ay ++ out.map (·.2.2.2)) := by
+  induction P generalizing ax ay with
+  | nil => simp [Mir.Gen.util.merge_labeled_intervals_loop1, Except.map, pure, Except.pure]
+  | cons pq P ih =>
+    obtain ⟨t0, t1⟩ := pq
+    simp only [Mir.Gen.util.merge_labeled_intervals_loop1, labels, maskSelect_arange, ok_bind, List.mapM_cons, mergeRow]
+    rcases hx : lastStarted x t0 with _ | lx
+    · simp [pick_none hx]; rfl
+    · obtain ⟨n, hn1, hn2⟩ := pick_some (fun l => l) hx
+      simp only [hn1, hn2, ok_bind]
+      rcases hy : lastStarted y t0 with _ | ly
+      · simp [pick_none hy]; rfl
+      · obtain ⟨m, hm1, hm2⟩ := pick_some (fun l => l) hy
+        simp only [hm1, hm2, ok_bind]
+        have := ih (PyI.append ax lx) (PyI.append ay ly)
+        simp only [labels] at this
+        rw [this]
+        cases P.mapM (mergeRow x y) with
+        | error e => rfl
+        | ok out => simp [Except.map, PyI.append, bind, Except.bind, pure, Except.pure]
+
+theorem ravel_append (a b : Ivals) : ravel (a ++ b) = ravel a ++ ravel b := by
+  induction a with
+  | nil => rfl
+  | cons x r ih => simp [ravel, entriesP] at ih ⊢; exact ih
+
+theorem getItem_col0_zero {L : Type} (x : LI L) :
+    getItem (col0 (ivals x)) 0 = match x.head? with | some x0 => .ok x0.1 | none => .error .indexError := by
+  cases x <;> simp [col0, ivals]
+
+theorem getItem_col1_last {L : Type} (x : LI L) :
+    getItem (col1 (ivals x)) (-1) = match x.getLast? with | some xn => .ok xn.2.1 | none => .error .indexError := by
+  rw [getItem_neg_one]
+  simp only [col1, ivals, List.map_map, List.getLast?_map]
+  cases x.getLast? <;> rfl
+
+theorem merge_nonempty_case (x y : LI String) {x0 xn y0 yn : Rat × Rat × String} (hx0 : x.head? = some x0)
+    (hxn : x.getLast? = some xn) (hy0 : y.head? = some y0) (hyn : y.getLast? = some yn) :
+    Mir.Gen.util.merge_labeled_intervals (ivals x) (labels x) (ivals y) (labels y)
+      = (mergeLabeled x y).map fun out =>
+          (out.map fun r => (r.1, r.2.1), out.map fun r => r.2.2.1, out.map fun r => r.2.2.2) := by
+  simp only [Mir.Gen.util.merge_labeled_intervals, mergeLabeled, getItem_col0_zero, getItem_col1_last, hx0, hxn, hy0, hyn,
+    ok_bind, zip_slices, unique, ravel_append, ravel_ivals, mergeRows_eq, merge_loop_eq]
+  by_cases ha : x0.1 = y0.1 ∧ xn.2.1 = yn.2.1
+  · have hb : List.elem false [decide (x0.1 = y0.1), decide (xn.2.1 = yn.2.1)] = false := by simp [ha.1, ha.2]
+    simp only [hb, if_pos ha]
+    rcases hm : (pairs (usort (entries x ++ entries y))).mapM (mergeRow x y) with e | out
+    · rfl
+    · simp [Except.map, bind, Except.bind, pure, Except.pure, mergeRow_mapM_fst x y _ hm]
+  · have hb : List.elem false [decide (x0.1 = y0.1), decide (xn.2.1 = yn.2.1)] = true := by
+      rcases not_and_or.1 ha with h | h <;> simp [h]
+    simp only [hb, if_neg ha]
+    rfl
+
+/-- `util.merge_labeled_intervals` for ALL pairs of labelled interval lists (empty, misaligned, gapped, overlapping
+    included; value or exception class) -/
+theorem merge_labeled_intervals_eq_model (x y : LI String) :
+    Mir.Gen.util.merge_labeled_intervals (ivals x) (labels x) (ivals y) (labels y)
+      = (mergeLabeled x y).map fun out =>
+          (out.map fun r => (r.1, r.2.1), out.map fun r => r.2.2.1, out.map fun r => r.2.2.2) := by
+  cases x with
+  | nil => simp [Mir.Gen.util.merge_labeled_intervals, mergeLabeled, col0, ivals]; rfl
+  | cons x0 rx =>
+    cases y with
+    | nil => simp [Mir.Gen.util.merge_labeled_intervals, mergeLabeled, col0, ivals]; rfl
+    | cons y0 ry =>
+      rcases hxl : (x0 :: rx).getLast? with _ | xn
+      · simp at hxl
+      rcases hyl : (y0 :: ry).getLast? with _ | yn
+      · simp at hyl
+      exact merge_nonempty_case _ _ rfl hxl rfl hyl
+
 /-! ### the C13 headline statements, on the translated definitions -/
 
 section headlines
